@@ -6,6 +6,10 @@ CONSTANTS
   RuneKinds = {"p", "b"}
   DecMode = "tight"
   LineMode = "tracked"
+  WithComments = FALSE
+  CommentMode = "eofsafe"
+  Pres = {"ok"}
+  SpawnMode = "afterchecks"
 SPECIFICATION Spec
 INVARIANT TypeOK
 INVARIANT SinkGood
